@@ -251,9 +251,16 @@ def header_crc_once(ck, P, R="PAIR/header-crc-once"):
         data = a[1]
         from_pending = bool(mir.calls_in(data, r"Pending::pending$"))
         can_suspend_after = flow.reaches_avoiding(fb, [c.bb], susp)
+        # or: exactly the slice that was just handed to the pending buffer (extend(x); crc(x) in one step)
+        paired = False
+        for e_ in fb.live_calls(r"pending::Pending::extend$"):
+            ea = fb.call_args(e_)
+            if len(ea) >= 2 and mir.fmt(mir.strip_casts(ea[1])) == mir.fmt(mir.strip_casts(data)) and e_.bb != c.bb \
+                    and fb.dominates(e_.bb, c.bb) and not flow.reaches_avoiding(fb, [e_.bb], susp, cut_blocks={c.bb}):
+                paired = True
         n += 1
-        ck.decide(from_pending or not can_suspend_after, R, "flush_bytes:crc#%d" % i,
-                  "taken over the pending buffer" if from_pending else "no suspension can follow",
+        ck.decide(from_pending or paired or not can_suspend_after, R, "flush_bytes:crc#%d" % i,
+                  "taken over the pending buffer" if from_pending else ("the slice just written" if paired else "no suspension can follow"),
                   "flush_bytes updates the header CRC over %s and can still suspend afterwards: the unwritten rest of the field is passed "
                   "in again on the next call and enters the CRC twice (wrong FHCRC whenever a field is split across calls)"
                   % mir.fmt(data, fb)[:80], where(fb, c.line))
